@@ -676,7 +676,9 @@ where
                     symbol = symbol - step;
                 } else {
                     // We're still in the downward search phase with exponentially increasing step size.
-                    if step << 1 != Symbol::zero() {
+                    // Double the step size unless this would overflow (to zero for unsigned
+                    // `Symbol` types, or into the sign bit for signed `Symbol` types).
+                    if step << 1 > Symbol::zero() {
                         step = step << 1;
                     }
 
@@ -758,7 +760,9 @@ where
                     symbol = symbol + step;
                 } else {
                     // We're still in the upward search phase with exponentially increasing step size.
-                    if step << 1 != Symbol::zero() {
+                    // Double the step size unless this would overflow (to zero for unsigned
+                    // `Symbol` types, or into the sign bit for signed `Symbol` types).
+                    if step << 1 > Symbol::zero() {
                         step = step << 1;
                     }
 
